@@ -1710,3 +1710,224 @@ func init() {
 		},
 	}
 }
+
+// deriveInst clones an instance with extra cfg keys and a name suffix.
+func deriveInst(in Instance, extra map[string]interface{}, suffix string) Instance {
+	cfg := map[string]interface{}{}
+	for k, v := range in.Cfg {
+		cfg[k] = v
+	}
+	for k, v := range extra {
+		cfg[k] = v
+	}
+	return Instance{Harness: in.Harness, Cfg: cfg, Ring: in.Ring, Name: in.Name + "@" + suffix}
+}
+
+func init() {
+	props["C20"] = &propDef{
+		ID: "C20",
+		Anchored: []string{"Float64Engine", "Float32Engine", "WithEngine", "handleFuncOptsF64", "handleFuncOptsF32", "prepDataVSF64", "prepDataVSF32", "divmod", "denseTranspose", "StdEng).Transpose", ").fix",
+			"vecf64", "vecf32", "api_arith.go:FMA", "tensor.FMA", ").Inner"},
+		Bounds: map[string]interface{}{
+			"differential": "vhC20Diff: the same symbolic element values are given to tensors of the default engine and of Float64Engine/Float32Engine; outcome, returned-tensor identity relation, result elements and the final contents of every backing array (operands, destination, cells outside view windows) are asserted bit-equal. ops Add (specialised kernel), Sub/Mul/Div (embedded default kernels reached through the specialised engine's dispatch), FMA, FMAScalar, Inner, MatMul, MatVecMul, Outer; forms tensor-tensor, tensor-scalar, scalar-tensor; modes safe/unsafe/reuse/incr/reuse-of-first-operand; layouts C,F,T,S,SS per operand and destination; shapes rank 1-3 (dims<=3)",
+			"oracle":       "the C06/C07 and C09 oracle harnesses re-run with every tensor carrying the specialised engine (cfg engine), the C03 programs under the inplacetranspose tag and with the specialised engines, the C01/C03/C05 index harnesses under the noasm tag (the Go body of divmod is then the executed code)",
+			"asm":          "divmod_amd64.s is parsed from the tree and encoded instruction by instruction (MOVQ, CMPQ, JEQ, JMP, CQO, IDIVQ with #DE, NEGQ, RET) over 64-bit vectors: quotient and remainder equal Go's a/b and a%b for every a and every b != 0, with no divide error",
+			"float_model":  "FMA/Inner/products in ring mode (floats as mathematical integers: exactness of the index/accumulation structure, not rounding); Add/Sub/Mul/Div in the FP theory",
+			"engine_dtype_mismatch": "a float64 engine on float32 data (and vice versa) may refuse; a refusal must leave every operand untouched",
+			"outside":      "operands of different shapes (the specialised Add does not re-check shapes; the default engine refuses them), sparse operands, engines other than the two shipped ones, GOARCH other than amd64 for the assembly",
+		},
+		Instances: func(tier string, seed int64) []Instance {
+			var out []Instance
+			thorough := tier == "thorough"
+			out = append(out, Instance{Harness: "@asm:divmod", Cfg: map[string]interface{}{}, Name: "@asm:divmod"})
+			out = append(out, mkInst("vhC20Divmod", map[string]interface{}{"tags": "noasm"}, "tags"))
+			out = append(out, mkInst("vhC20Divmod", map[string]interface{}{}))
+			engs := []struct{ e, dt string }{{"f64", "float64"}, {"f32", "float32"}}
+			n := 0
+			lays := []string{"C", "F", "T", "S"}
+			shapes := [][]int{{3}, {2, 3}, {2, 1, 2}}
+			if thorough {
+				shapes = append(shapes, []int{3, 1}, []int{1, 3}, []int{2, 2, 2}, []int{1})
+				lays = append(lays, "SS")
+			}
+			// differential: arithmetic
+			for _, sh := range shapes {
+				for _, op := range []string{"Add", "Sub", "Mul", "Div"} {
+					for _, form := range []string{"TT", "TS", "ST"} {
+						for _, mode := range []string{"", "unsafe", "reuse", "incr", "reuseA"} {
+							for li, la := range lays {
+								if !layoutOK(sh, la) {
+									continue
+								}
+								for lj, lb := range lays {
+									if form != "TT" && lj > 0 {
+										continue
+									}
+									if !layoutOK(sh, lb) {
+										continue
+									}
+									n++
+									if op != "Add" && !thorough && n%4 != 0 {
+										continue
+									}
+									if !thorough && op == "Add" && form == "TT" && li != 0 && lj != 0 && (li+lj+n)%2 == 0 {
+										continue
+									}
+									ld := lays[(li+lj+n)%len(lays)]
+									if !layoutOK(sh, ld) {
+										ld = "C"
+									}
+									for ei, eg := range engs {
+										if !thorough && op != "Add" && (n/4)%2 != ei {
+											continue
+										}
+										api := []string{"func", "method"}[(n+ei)%2]
+										cfg := map[string]interface{}{"dtype": eg.dt, "engine": eg.e, "op": op, "form": form, "shape": sh, "la": la, "lb": lb, "ld": ld, "mode": mode, "api": api}
+										out = append(out, mkInst("vhC20Diff", cfg, "engine", "op", "form", "shape", "la", "lb", "ld", "mode", "api"))
+									}
+								}
+							}
+						}
+					}
+				}
+			}
+			// differential: FMA / FMAScalar (ring)
+			for _, sh := range shapes {
+				for _, op := range []string{"FMA", "FMAScalar"} {
+					for li, la := range lays {
+						for lj, lb := range lays {
+							if op == "FMAScalar" && lj > 0 {
+								continue
+							}
+							for lk, ld := range lays {
+								if !layoutOK(sh, la) || !layoutOK(sh, lb) || !layoutOK(sh, ld) {
+									continue
+								}
+								n++
+								if !thorough && li != 0 && lj != 0 && lk != 0 && n%3 != 0 {
+									continue
+								}
+								eg := engs[n%2]
+								cfg := map[string]interface{}{"dtype": eg.dt, "engine": eg.e, "op": op, "shape": sh, "la": la, "lb": lb, "ld": ld}
+								in := mkInst("vhC20Diff", cfg, "engine", "op", "shape", "la", "lb", "ld")
+								in.Ring = true
+								out = append(out, in)
+							}
+						}
+					}
+				}
+			}
+			// differential: Inner and products (ring)
+			for _, la := range []string{"C", "S", "SS"} {
+				for _, lb := range []string{"C", "S", "SS"} {
+					for _, eg := range engs {
+						cfg := map[string]interface{}{"dtype": eg.dt, "engine": eg.e, "op": "Inner", "shape": []int{3}, "la": la, "lb": lb}
+						in := mkInst("vhC20Diff", cfg, "engine", "op", "shape", "la", "lb")
+						in.Ring = true
+						out = append(out, in)
+					}
+				}
+			}
+			for _, pr := range []struct {
+				op         string
+				sa, sb, sd []int
+			}{{"MatMul", []int{2, 3}, []int{3, 2}, []int{2, 2}}, {"MatVecMul", []int{2, 3}, []int{3}, []int{2}}, {"Outer", []int{2}, []int{3}, []int{2, 3}}} {
+				for _, mode := range []string{"", "reuse", "incr"} {
+					for li, la := range []string{"C", "F", "T", "S"} {
+						for lj, lb := range []string{"C", "F", "T", "S"} {
+							if !layoutOK(pr.sa, la) || !layoutOK(pr.sb, lb) {
+								continue
+							}
+							n++
+							if !thorough && li != 0 && lj != 0 && n%3 != 0 {
+								continue
+							}
+							eg := engs[n%2]
+							cfg := map[string]interface{}{"dtype": eg.dt, "engine": eg.e, "op": pr.op, "shape": pr.sa, "shapeb": pr.sb, "shaped": pr.sd, "la": la, "lb": lb, "ld": "C", "mode": mode}
+							in := mkInst("vhC20Diff", cfg, "engine", "op", "la", "lb", "mode")
+							in.Ring = true
+							out = append(out, in)
+						}
+					}
+				}
+			}
+			// engine/dtype mismatch: refusal or equality, never a silent difference
+			for _, op := range []string{"Add", "FMA", "FMAScalar", "Mul"} {
+				for _, mode := range []string{"", "unsafe", "reuse"} {
+					if op != "Add" && op != "Mul" && mode != "" {
+						continue
+					}
+					for _, eg := range []struct{ e, dt string }{{"f64", "float32"}, {"f32", "float64"}} {
+						cfg := map[string]interface{}{"dtype": eg.dt, "engine": eg.e, "op": op, "form": "TT", "shape": []int{2, 2}, "la": "C", "lb": "C", "ld": "C", "mode": mode, "api": "func"}
+						in := mkInst("vhC20Diff", cfg, "engine", "dtype", "op", "mode")
+						in.Ring = op == "FMA" || op == "FMAScalar"
+						out = append(out, in)
+					}
+				}
+			}
+			// oracle harnesses of C06/C07/C09/C03 with the specialised engines
+			pick := func(id string, every int, keep func(Instance) bool, extra func(Instance) (map[string]interface{}, string)) {
+				k := 0
+				for _, in := range props[id].Instances(tier, seed) {
+					if !keep(in) {
+						continue
+					}
+					k++
+					if !thorough && k%every != 0 {
+						continue
+					}
+					ex, suf := extra(in)
+					out = append(out, deriveInst(in, ex, suf))
+				}
+			}
+			engOf := func(in Instance) (map[string]interface{}, string) {
+				if in.Cfg["dtype"] == "float32" {
+					return map[string]interface{}{"engine": "f32"}, "f32eng"
+				}
+				return map[string]interface{}{"engine": "f64"}, "f64eng"
+			}
+			isFloat := func(in Instance) bool {
+				dt, _ := in.Cfg["dtype"].(string)
+				_, tagged := in.Cfg["tags"]
+				return (dt == "float64" || dt == "float32") && !tagged
+			}
+			pick("C06", 8, isFloat, engOf)
+			pick("C07", 8, isFloat, engOf)
+			pick("C09", 5, isFloat, engOf)
+			pick("C03", 3, func(in Instance) bool { return isFloat(in) && in.Harness == "vhC03Prog" }, engOf)
+			// build tags
+			untagged := func(in Instance) bool { _, t := in.Cfg["tags"]; return !t }
+			tagOf := func(tag string) func(Instance) (map[string]interface{}, string) {
+				return func(Instance) (map[string]interface{}, string) { return map[string]interface{}{"tags": tag}, tag }
+			}
+			movesData := func(in Instance) bool {
+				p, _ := in.Cfg["prog"].(string)
+				return untagged(in) && in.Harness == "vhC03Prog" && strings.ContainsAny(p, "XDM")
+			}
+			// the in-place algorithm has one routine per element size and early exits by element count: every size class
+			// on small shapes (exactly 4 elements included)
+			for _, dt := range []string{"int8", "int16", "float32", "float64", "complex128", "string", "bool", "uint16"} {
+				for si, sh := range [][]int{{2, 2}, {2, 3}, {2, 1, 2}, {2, 2, 2}, {3, 2}, {1, 2, 2}, {3, 3}} {
+					for pi, prog := range []string{"TX", "DX", "TXT", "DXD"} {
+						if !thorough && pi >= 2 && (si+pi)%3 != 0 {
+							continue
+						}
+						in := mkInst("vhC03Prog", map[string]interface{}{"dtype": dt, "shape": sh, "base": "C", "prog": prog, "storage": 1, "safeut": 1, "tags": "inplacetranspose"}, "dtype", "shape", "base", "prog")
+						in.Name += "@inplacetranspose"
+						out = append(out, in)
+					}
+				}
+			}
+			pick("C03", 3, movesData, tagOf("inplacetranspose"))
+			pick("C03", 9, movesData, tagOf("noasm,inplacetranspose"))
+			pick("C03", 12, func(in Instance) bool { return untagged(in) && in.Harness == "vhC03Prog" }, tagOf("noasm"))
+			pick("C01", 10, untagged, tagOf("noasm"))
+			pick("C05", 10, untagged, tagOf("noasm"))
+			if thorough {
+				pick("C04", 4, untagged, tagOf("inplacetranspose"))
+				pick("C02", 6, untagged, tagOf("noasm"))
+			}
+			return out
+		},
+	}
+}
